@@ -685,6 +685,60 @@ pub fn churn_par<S: Strat>() {
     epilogue_p(vec![c], fil, vec![], false, "C03");
 }
 
+/// T0 has exited (its node is cooling down); X and Y, both new to the crate, start at the same
+/// time and race for that node while W stores. Each takes a guard, uses it and lets it go.
+pub fn churn_two<S: Strat>() {
+    // Thread churn is the subject: whatever fails here is (also) a C11 failure.
+    rt::set_context_tag("C11");
+    let c = Cont::<S>::new(0, V::new(1));
+    let fil = filler::<S>();
+    let w = {
+        let (c, fil) = (c.clone(), fil.clone());
+        rt::spawn(move || {
+            // owns its node before T0 exits, so it cannot adopt T0's
+            let h = prologue(&fil, false);
+            release(h);
+            rt::quiet(|| rt::barrier(3));
+            store(&c, V::new(11));
+        })
+    };
+    let t0 = {
+        let (c, fil) = (c.clone(), fil.clone());
+        rt::spawn(move || {
+            rt::quiet(|| {
+                let h = prologue(&fil, false);
+                release(h);
+                let g = c.sw.load();
+                drop(g);
+            });
+        })
+    };
+    t0.join();
+    let mut hs = Vec::new();
+    for _ in 0..2 {
+        let c = c.clone();
+        hs.push(rt::spawn(move || {
+            rt::quiet(|| rt::barrier(3));
+            // first use of the crate on this thread, inside the race
+            let g = load(&c);
+            let l = g.peek_label();
+            use_value(&g, l, "guard of a thread that has just claimed its node");
+            drop_guard(g);
+        }));
+    }
+    rt::join_all();
+    for h in hs {
+        h.join();
+    }
+    w.join();
+    let nodes = world::node_count();
+    // W's, X's, Y's and T0's (which may stay in cooldown while W walks through it)
+    if nodes > 4 && !rt::draining() {
+        rt::violation("C11", "nodes", format!("{} debt nodes for 4 threads", nodes));
+    }
+    epilogue_p(vec![c], fil, vec![], false, "C03");
+}
+
 /// Operations after the thread's local storage is gone (temporary node path), concurrent with a writer.
 pub fn tls_gone<S: Strat>(with_writer: bool) {
     let c = Cont::<S>::new(0, V::new(1));
@@ -1061,9 +1115,27 @@ pub fn rcu_adv<S: Strat>(fill: bool) {
 
 /// R{load; load} || W{store} both interleaved step by step, plus W2{store} as one complete call
 /// placed anywhere: the helping hand-over racing with a second writer.
-pub fn help_adv<S: Strat>(fill: bool) {
+pub fn help_adv<S: Strat>(fill: bool, r_first: bool) {
     let c = Cont::<S>::new(0, V::new(1));
     let fil = filler::<S>();
+    // Writers walk the node list newest first, so the order in which the threads get their
+    // nodes decides whom W2 helps first: the reader (`r_first` = false, its node is the newest)
+    // or the other writer's nested load (`r_first` = true, the reader's node is the oldest).
+    let mk_r = || {
+        let (c, fil) = (c.clone(), fil.clone());
+        rt::spawn(move || {
+            let h = prologue(&fil, fill);
+            rt::quiet(|| rt::barrier(3));
+            for _ in 0..2 {
+                let g = load(&c);
+                let l = g.peek_label();
+                use_value(&g, l, "guard");
+                drop_guard(g);
+            }
+            release(h);
+        })
+    };
+    let r_early = if r_first { Some(mk_r()) } else { None };
     let w2 = {
         let (c, fil) = (c.clone(), fil.clone());
         rt::spawn(move || {
@@ -1084,19 +1156,9 @@ pub fn help_adv<S: Strat>(fill: bool) {
             release(h);
         })
     };
-    let r = {
-        let (c, fil) = (c.clone(), fil.clone());
-        rt::spawn(move || {
-            let h = prologue(&fil, fill);
-            rt::quiet(|| rt::barrier(3));
-            for _ in 0..2 {
-                let g = load(&c);
-                let l = g.peek_label();
-                use_value(&g, l, "guard");
-                drop_guard(g);
-            }
-            release(h);
-        })
+    let r = match r_early {
+        Some(r) => r,
+        None => mk_r(),
     };
     rt::join_all();
     w2.join();
